@@ -305,22 +305,14 @@ def set_pixel_paths(prog, rep, P_, f, key, bits, oname, specialised, DATA):
 
 
 def _same_fn(a, b, bits):
-    """Do two index expressions over X, Y, WIDTH agree on a grid?  (None: cannot evaluate.)  Integer arithmetic
-    with the same truncating divisions; used only to compare spellings of the layout formula."""
-    try:
-        for W in (1, 2, 3, 5, 7, 8, 9, 13, 16, 17, 31, 33, 64, 100):
-            for X in sorted({0, 1, 2, 3, 7, 8, 9, W - 1, W // 2}):
-                if X < 0 or X >= W:
-                    continue
-                for Y in (0, 1, 2, 5, 63):
-                    H = 64
-                    env = {"X": X, "Y": Y, "WIDTH": W, "HEIGHT": H, "N": ((W * bits + 7) // 8) * H + 3 * H + 5}   # N: an oversized buffer
-                    f = lambda t: subst(t, lambda n: C(env[n[1]]) if n[0] == "const" and n[1] in env else None)
-                    if _eval_int(fold(f(a)), {}) != _eval_int(fold(f(b)), {}):
-                        return False
-        return True
-    except Exception:
+    """Two index expressions over X, Y, WIDTH … denote the same function if their normal forms (polynomials over the
+    named constants and the truncating quotients in them, mirq.poly.normal_form) coincide.  True / False (different
+    normal forms: reported as not matching the layout) / None (not such an expression)."""
+    from mirq.poly import normal_form
+    na, nb = normal_form(a), normal_form(b)
+    if na is None or nb is None:
         return None
+    return na == nb
 
 
 def _rmw_ok(val, lvalue, shl, bits):
